@@ -124,6 +124,16 @@ def prove_take(src_root, ex: Explorer, slack: int, suffix: str):
         def loop_spec(it2, node, env):
             # one iteration of the polling loop, whatever its form: `while True:` with the grant inside, or `while <bucket is empty>:` with
             # the grant after the loop.  The guard is evaluated (it may be the refill itself); a false guard leaves the loop.
+            # an ARBITRARY iteration: numeric locals that the loop body itself assigns (a growing delay, a counter) hold arbitrary values
+            import ast as _ast
+            assigned = {t.id for n in _ast.walk(_ast.Module(body=node.body, type_ignores=[])) if isinstance(n, (_ast.Assign, _ast.AugAssign, _ast.AnnAssign))
+                        for t in (n.targets if isinstance(n, _ast.Assign) else [n.target]) if isinstance(t, _ast.Name)}
+            for k_ in assigned:
+                v_ = env.vars.get(k_)
+                if isinstance(v_, (int, float)) and not isinstance(v_, bool):
+                    h = ctx.fresh_real('carried_' + k_)
+                    ctx.assume(h >= 0)
+                    env.vars[k_] = Sym(h, 'real')
             if not it2.decide(it2.eval(node.test, env)):
                 return
             try:
@@ -146,6 +156,10 @@ def prove_take(src_root, ex: Explorer, slack: int, suffix: str):
         if res == '<next-iteration>':
             # no grant: slept once, granted nothing
             ctx.prove('C20.take.wait', z3.BoolVal(len(slept) == 1 and it.aio.yields == ['asyncio.sleep']))
+            # bounded wait: the polling interval of an iteration is bounded by a constant (C20.progress.* credits a waiter per INTERVAL)
+            interval = unbox(it.module_global(it.source.module(RL), 'INTERVAL'))
+            ctx.prove('C20.take.wait-interval-bounded', z3real(slept[0]) <= z3.RealVal(str(interval)) if slept else z3.BoolVal(False),
+                      f'an iteration sleeps {slept!r}: with a delay that grows from iteration to iteration a request waits arbitrarily long although tokens are credited')
             ctx.prove(f'C20.take.window-inv{suffix}[wait]{wcls}', J(W, F2, bs, ts, L, b2, r2, slack))
             ctx.prove('C20.inv.cap#take[wait]', z3.And(b2 >= 0, b2 <= L))
             return
